@@ -282,6 +282,12 @@ func (c *c16) DumpCase(seed uint64, idx int) []Case {
 		if r.chance(300) {
 			cs.Opts.Entry = "path"
 		}
+		if r.chance(300) {
+			// two ban options (solo results are computed with the same options, so whatever they
+			// forbid is forbidden alone as well)
+			cs.Opts.Banned = []int{r.n(nDirectiveKinds), r.n(nDirectiveKinds), r.n(nDirectiveKinds)}
+			cs.Opts.SplitBans = true
+		}
 		c.schedParams(r, &ex, n)
 	case idx < c.nW1+c.nW2:
 		cs.Kind = "w2"
@@ -491,9 +497,11 @@ func (c *c16) checkW1(cs *Case, ex *c16extra, record bool) *Case {
 	simrt.SetBudget(softFactor*total, hardFactor*total)
 	res := make([]Result, len(ps))
 	fns := make([]func(), len(ps))
+	// one set of option values for all goroutines, as a server would keep it
+	shared := cs.Opts.options()
 	for i := range ps {
 		i := i
-		fns[i] = func() { res[i] = runLibrary(ps[i].Root, ps[i].content(ps[i].absRoot()), cs.Opts) }
+		fns[i] = func() { res[i] = runLibraryWith(ps[i].Root, ps[i].content(ps[i].absRoot()), shared, cs.Opts.Entry) }
 	}
 	panics := simrt.RunGoroutines(fns)
 	simrt.SetBudget(^uint64(0), ^uint64(0))
